@@ -43,7 +43,7 @@ func c05Stress(ctx *Ctx) {
 		ctx.Inconclusive("race build unavailable: stress ran without the race detector")
 	}
 	rounds := ctx.N(3, 10)
-	modes := []string{"mixed", "aof-order", "snapshot-cut", "conn-admin", "expiry-resurrect", "first-select", "object-touch"}
+	modes := []string{"mixed", "aof-order", "snapshot-cut", "conn-admin", "expiry-resurrect", "first-select", "object-touch", "collection-readers"}
 	var wg sync.WaitGroup
 	sem := make(chan struct{}, 3)
 	for rd := 0; rd < rounds; rd++ {
@@ -226,7 +226,7 @@ func stressMain(args []string) int {
 	if tier == "thorough" {
 		nClients, nOps = 12, 600
 	}
-	if mode == "conn-admin" || mode == "expiry-resurrect" || mode == "first-select" || mode == "object-touch" {
+	if mode == "conn-admin" || mode == "expiry-resurrect" || mode == "first-select" || mode == "object-touch" || mode == "collection-readers" {
 		finish := func() int {
 			for c := range classes {
 				res.Classes = append(res.Classes, c)
@@ -238,6 +238,8 @@ func stressMain(args []string) int {
 			stressConnAdmin(in, port, nOps*2, seed, res, violate, class)
 		} else if mode == "first-select" {
 			stressFirstSelect(in, port, nClients, seed, res, violate, class)
+		} else if mode == "collection-readers" {
+			stressCollectionReaders(in, port, seed, res, violate, class)
 		} else if mode == "object-touch" {
 			stressObjectTouch(in, port, nOps*4, seed, res, violate, class, opts.Policy)
 		} else {
@@ -1023,4 +1025,92 @@ func stressObjectTouch(in *Inst, port int, nOps int, seed int64, res *stressResu
 	res.Ops = ops.Load()
 	class(fmt.Sprintf("object-touch|%s|completed=%v", policy, !stuck))
 	res.Counters["object_touch_ops"] = ops.Load()
+}
+
+
+// stressCollectionReaders: one writer adds an element to a large set, sorted set, hash and list and is
+// acknowledged; then several clients read the whole collection at the same moment (SMEMBERS, SDIFF against an
+// empty set, ZRANGE, HGETALL, LRANGE). Every one of those reads comes after the acknowledged write, so every
+// reply must hold all the elements written so far - a reader must never see a collection that another reader
+// (or the reader's own helper structures) is still putting together.
+func stressCollectionReaders(in *Inst, port int, seed int64, res *stressResult, violate func(Violation), class func(string)) {
+	const base, rounds, readers = 3000, 30, 4
+	var argvS, argvZ, argvH, argvL = []string{"SADD", "cr:s"}, []string{"ZADD", "cr:z"}, []string{"HSET", "cr:h"}, []string{"RPUSH", "cr:l"}
+	for e := 0; e < base; e++ {
+		m := fmt.Sprintf("m%05d", e)
+		argvS = append(argvS, m)
+		argvZ = append(argvZ, strconv.Itoa(e), m)
+		argvH = append(argvH, m, "v")
+		argvL = append(argvL, m)
+	}
+	for _, a := range [][]string{argvS, argvZ, argvH, argvL} {
+		in.Do(a...)
+	}
+	reads := [][]string{{"SMEMBERS", "cr:s"}, {"SDIFF", "cr:s", "cr:none"}, {"SUNION", "cr:s", "cr:none"}, {"ZRANGE", "cr:z", "-inf", "+inf"}, {"HGETALL", "cr:h"}, {"HKEYS", "cr:h"}, {"LRANGE", "cr:l", "0", "-1"}}
+	var ops atomic.Int64
+	var clients []*stressClient
+	for i := 0; i < readers; i++ {
+		c := &stressClient{id: i, in: in}
+		if i%2 == 1 {
+			if tc, err := Dial(port); err == nil {
+				c.tcp = tc
+				defer tc.Close()
+			}
+		}
+		clients = append(clients, c)
+	}
+	bad := false
+	for r := 0; r < rounds && !bad; r++ {
+		m := fmt.Sprintf("new%03d", r)
+		in.Do("SADD", "cr:s", m)
+		in.Do("ZADD", "cr:z", "1e9", m)
+		in.Do("HSET", "cr:h", m, "v")
+		in.Do("RPUSH", "cr:l", m)
+		want := base + r + 1
+		rd := reads[r%len(reads)]
+		start := make(chan struct{})
+		var wg sync.WaitGroup
+		var mu sync.Mutex
+		for _, c := range clients {
+			wg.Add(1)
+			go func(c *stressClient) {
+				defer wg.Done()
+				<-start
+				v, err := c.do(rd...)
+				ops.Add(1)
+				if err != nil || v.IsError() || !v.IsSeq() {
+					return
+				}
+				n := len(v.Elems)
+				if rd[0] == "HGETALL" {
+					n /= 2
+				}
+				seen := false
+				for _, e := range v.Elems {
+					if t, _ := e.Text(); t == m {
+						seen = true
+						break
+					}
+				}
+				if rd[0] == "ZRANGE" {
+					seen = true // members come back in the server's own reply shape: the count decides
+				}
+				if n != want || !seen {
+					mu.Lock()
+					if !bad {
+						bad = true
+						violate(Violation{Kind: "torn_read", Lane: "stress-collection-readers",
+							What: fmt.Sprintf("after %d acknowledged additions to a collection of %d elements, %d clients sent %s at the same moment: one reply holds %d elements (contains the element added last: %v), expected %d", r+1, base, readers, Step{Argv: rd}.String(), n, seen, want),
+							Case: map[string]interface{}{"read": rd, "round": r, "seed": seed}, Key: "c05|collection-readers|" + strings.ToLower(rd[0])})
+					}
+					mu.Unlock()
+				}
+			}(c)
+		}
+		close(start)
+		wg.Wait()
+	}
+	res.Ops = ops.Load()
+	class(fmt.Sprintf("collection-readers|clean=%v", !bad))
+	res.Counters["collection_reader_reads"] = ops.Load()
 }
